@@ -40,6 +40,7 @@ type Member struct {
 	Exported bool   `json:"exported"`
 	IsInt    bool   `json:"isInt"`
 	Int      int64  `json:"int"`
+	Str      string `json:"str"` // string value of a string constant
 }
 
 type Comment struct {
@@ -204,6 +205,7 @@ func (d *dumper) decl(q string, node an.Type) {
 			if v, ok := constInt(m); ok {
 				mm.IsInt, mm.Int = true, v
 			}
+			mm.Str = constStr(m)
 			out.Members = append(out.Members, mm)
 		}
 	case *an.Union:
